@@ -283,7 +283,12 @@ func vacuityCheck(vcs []vcAndKey, timeout int) []string {
 				sem <- struct{}{}
 				defer func() { <-sem }()
 				q := v.vc.CoverQuery(o.Guard, o.NAssumes)
-				r := decide(solve(q, timeout, false))
+				// reachability needs a model, which quantified axioms usually prevent: short attempt with them,
+				// then without (a contradiction among the quantifier-free facts is what a vacuous contract looks like)
+				r := runSolver(solvers[0], q, 2)
+				if r.verdict != "unsat" && r.verdict != "sat" {
+					r = runSolver(solvers[0], dropQuantified(q), timeout)
+				}
 				if r.verdict == "unsat" {
 					mu.Lock()
 					out = append(out, fmt.Sprintf("%s: program point of %s is unreachable under the assumed contracts (vacuous proof)", v.key, o.Name))
